@@ -323,10 +323,14 @@ func (c ColLowCardinality[T]) Rows() int {
 func (c *ColLowCardinality[T]) Prepare() error {
 	// Allocate keys slice.
 	c.keys = append(c.keys[:0], make([]int, len(c.Values))...)
+	// Rebuild the dictionary from the current values: the column can be
+	// prepared more than once, with or without new values in between.
 	if c.kv == nil {
 		c.kv = map[T]int{}
-		c.index.Reset()
+	} else {
+		clear(c.kv)
 	}
+	c.index.Reset()
 
 	// Fill keys with value indexes.
 	var last int
